@@ -1,8 +1,10 @@
 //! C14 — WHERE filtering follows SQL three-valued logic (QRY engine, bounded-exhaustive
 //! expression enumeration against the reference evaluator `refmodel::sql::expr`).
 //!
-//! Table = full cross product a∈{NULL,-1,0,1,2} × b∈{NULL,-1.0,0.5,1.0,2.0} × c∈{NULL,'','a','ab','b'}
-//! (125 rows), once with `id INT PRIMARY KEY` (table `t`), once with a plain `id INT` (table `n`) and once
+//! Table = full cross product a∈{NULL,-1,0,1,2} × b∈{NULL,-1.5,-1.0,-0.5,0.5,1.0,2.0} × c∈{NULL,'','a','ab','b'}
+//! (175 rows; b and the float constants -1.5,-0.5,0.5,1.0,1.5 make every int-vs-float comparison class occur:
+//! negative / positive fractional float whose truncation equals / differs from the int, integral float
+//! equal / unequal, in the orders int column-float constant, float column-int constant, int column-float column), once with `id INT PRIMARY KEY` (table `t`), once with a plain `id INT` (table `n`) and once
 //! with the primary key plus secondary B-tree indexes on a and c (table `x`: index-probe plans).
 //! For every enumerated predicate p two observations are compared with the model, row by row:
 //!   where        `SELECT id FROM <tb> WHERE p`            returned id set == rows where eval_truth(p) = TRUE
@@ -27,8 +29,65 @@ use std::collections::{BTreeMap, HashMap};
 use std::rc::Rc;
 use vcore::{json, Check, Ctx, Reporter, Spec, Value};
 
-const NROWS: usize = 125;
-const ALL: u128 = (1u128 << NROWS) - 1;
+const NROWS: usize = 175;
+const ALL: Mask = Mask::first(NROWS);
+
+/// set of row numbers (bit i = row with id i+1); 256 bits
+#[derive(Clone, Copy, PartialEq, Eq, Debug, Default)]
+struct Mask([u64; 4]);
+impl Mask {
+    const ZERO: Mask = Mask([0; 4]);
+    const fn first(n: usize) -> Mask {
+        let mut m = [0u64; 4];
+        let mut i = 0;
+        while i < n {
+            m[i / 64] |= 1 << (i % 64);
+            i += 1;
+        }
+        Mask(m)
+    }
+    fn set(&mut self, i: usize) {
+        self.0[i / 64] |= 1 << (i % 64);
+    }
+    fn has(&self, i: usize) -> bool {
+        self.0[i / 64] & (1 << (i % 64)) != 0
+    }
+    fn is_zero(&self) -> bool {
+        self.0 == [0; 4]
+    }
+    fn count_ones(&self) -> u32 {
+        self.0.iter().map(|w| w.count_ones()).sum()
+    }
+}
+impl std::ops::BitOr for Mask {
+    type Output = Mask;
+    fn bitor(self, o: Mask) -> Mask {
+        Mask([self.0[0] | o.0[0], self.0[1] | o.0[1], self.0[2] | o.0[2], self.0[3] | o.0[3]])
+    }
+}
+impl std::ops::BitAnd for Mask {
+    type Output = Mask;
+    fn bitand(self, o: Mask) -> Mask {
+        Mask([self.0[0] & o.0[0], self.0[1] & o.0[1], self.0[2] & o.0[2], self.0[3] & o.0[3]])
+    }
+}
+impl std::ops::BitXor for Mask {
+    type Output = Mask;
+    fn bitxor(self, o: Mask) -> Mask {
+        Mask([self.0[0] ^ o.0[0], self.0[1] ^ o.0[1], self.0[2] ^ o.0[2], self.0[3] ^ o.0[3]])
+    }
+}
+impl std::ops::Not for Mask {
+    type Output = Mask;
+    fn not(self) -> Mask {
+        Mask([!self.0[0], !self.0[1], !self.0[2], !self.0[3]])
+    }
+}
+impl std::ops::BitOrAssign for Mask {
+    fn bitor_assign(&mut self, o: Mask) {
+        *self = *self | o;
+    }
+}
 const TABLES: [&str; 3] = ["t", "n", "x"];
 const MODES: [&str; 2] = ["where", "select-list"];
 
@@ -385,7 +444,7 @@ struct Fx {
 
 fn domain_rows() -> Vec<Vec<V>> {
     let a = [V::Null, V::Int(-1), V::Int(0), V::Int(1), V::Int(2)];
-    let b = [V::Null, V::Float(-1.0), V::Float(0.5), V::Float(1.0), V::Float(2.0)];
+    let b = [V::Null, V::Float(-1.5), V::Float(-1.0), V::Float(-0.5), V::Float(0.5), V::Float(1.0), V::Float(2.0)];
     let c = [V::Null, V::Text("".into()), V::Text("a".into()), V::Text("ab".into()), V::Text("b".into())];
     let mut rows = vec![];
     for x in &a {
@@ -449,28 +508,28 @@ impl Fx {
 #[derive(Clone, Debug)]
 enum Obs {
     /// bit i set = row i returned (where) / has that class (select-list)
-    Where { t: u128 },
-    Sel { t: u128, f: u128, n: u128 },
+    Where { t: Mask },
+    Sel { t: Mask, f: Mask, n: Mask },
     /// Err / Panic / malformed result (duplicate ids, unknown id, wrong row or column count)
     Bad { class: &'static str, msg: String },
 }
 struct Ev {
-    exp_t: u128,
-    exp_f: u128,
-    exp_n: u128,
-    skipped: u128, // rows on which the model raises (Overflow/DivZero/Type): not compared
+    exp_t: Mask,
+    exp_f: Mask,
+    exp_n: Mask,
+    skipped: Mask, // rows on which the model raises (Overflow/DivZero/Type): not compared
     obs: Obs,
-    wrong: u128, // compared rows on which observation and model differ (ALL for Bad)
+    wrong: Mask, // compared rows on which observation and model differ (ALL for Bad)
 }
 
-fn model(fx: &Fx, p: &Expr) -> (u128, u128, u128, u128) {
-    let (mut t, mut f, mut n, mut s) = (0u128, 0u128, 0u128, 0u128);
+fn model(fx: &Fx, p: &Expr) -> (Mask, Mask, Mask, Mask) {
+    let (mut t, mut f, mut n, mut s) = (Mask::ZERO, Mask::ZERO, Mask::ZERO, Mask::ZERO);
     for (i, r) in fx.rows.iter().enumerate() {
         match p.eval_truth(r, &fx.schema) {
-            Ok(Some(true)) => t |= 1 << i,
-            Ok(Some(false)) => f |= 1 << i,
-            Ok(None) => n |= 1 << i,
-            Err(_) => s |= 1 << i,
+            Ok(Some(true)) => t.set(i as usize),
+            Ok(Some(false)) => f.set(i as usize),
+            Ok(None) => n.set(i as usize),
+            Err(_) => s.set(i as usize),
         }
     }
     (t, f, n, s)
@@ -482,6 +541,7 @@ fn planted_sql(fx: &Fx, sql: String) -> String {
         Some("and2or") => sql.replacen(" AND ", " OR ", 1),
         Some("le2lt") => sql.replace(" <= ", " < "),
         Some("like") => sql.replace("LIKE 'a%'", "LIKE 'a_'"),
+        Some("negfrac") => sql.replace("(-1.5)", "(-1.0)").replace("(-0.5)", "0"),
         _ => sql,
     }
 }
@@ -495,8 +555,8 @@ fn observe(fx: &Fx, tb: usize, mode: usize, p: &Expr) -> Obs {
         Res::Panic(e) => return Obs::Bad { class: "panic", msg: e },
         o => return Obs::Bad { class: "not-rows", msg: o.show() },
     };
-    let (mut t, mut f, mut n) = (0u128, 0u128, 0u128);
-    let mut seen = 0u128;
+    let (mut t, mut f, mut n) = (Mask::ZERO, Mask::ZERO, Mask::ZERO);
+    let mut seen = Mask::ZERO;
     for r in &rows {
         if r.len() != 1 + mode {
             return Obs::Bad { class: "column-count", msg: format!("row {}", refmodel::val::show_row(r)) };
@@ -505,20 +565,20 @@ fn observe(fx: &Fx, tb: usize, mode: usize, p: &Expr) -> Obs {
             V::Int(i) if *i >= 1 && *i <= NROWS as i64 => (*i - 1) as u32,
             o => return Obs::Bad { class: "unknown-id", msg: o.show() },
         };
-        if seen & (1 << id) != 0 {
+        if seen.has(id as usize) {
             return Obs::Bad { class: "duplicate-row", msg: format!("id {} returned twice", id + 1) };
         }
-        seen |= 1 << id;
+        seen.set(id as usize);
         if mode == 0 {
-            t |= 1 << id;
+            t.set(id as usize);
         } else {
             let v = &r[1];
             if v.is_null() {
-                n |= 1 << id;
+                n.set(id as usize);
             } else if loosely_equal_bool(v, &V::Bool(true)) {
-                t |= 1 << id;
+                t.set(id as usize);
             } else if loosely_equal_bool(v, &V::Bool(false)) {
-                f |= 1 << id;
+                f.set(id as usize);
             } else {
                 return Obs::Bad { class: "not-a-truth-value", msg: format!("id {}: {}", id + 1, v.show()) };
             }
@@ -538,8 +598,8 @@ fn evaluate(fx: &Fx, tb: usize, mode: usize, p: &Expr) -> Ev {
     let obs = observe(fx, tb, mode, p);
     let cmp = ALL & !skipped;
     let wrong = match &obs {
-        Obs::Where { t } => (t ^ exp_t) & cmp,
-        Obs::Sel { t, f, n } => ((t ^ exp_t) | (f ^ exp_f) | (n ^ exp_n)) & cmp,
+        Obs::Where { t } => (*t ^ exp_t) & cmp,
+        Obs::Sel { t, f, n } => ((*t ^ exp_t) | (*f ^ exp_f) | (*n ^ exp_n)) & cmp,
         Obs::Bad { .. } => ALL,
     };
     Ev { exp_t, exp_f, exp_n, skipped, obs, wrong }
@@ -556,8 +616,8 @@ fn sub_eval(fx: &mut Fx, tb: usize, mode: usize, p: &Expr) -> Rc<Ev> {
     ev
 }
 /// rows on which some proper boolean sub-expression disagrees with the model; .1 = some sub-expression is Bad
-fn descendants_wrong(fx: &mut Fx, tb: usize, mode: usize, p: &Expr) -> (u128, bool) {
-    let mut w = 0u128;
+fn descendants_wrong(fx: &mut Fx, tb: usize, mode: usize, p: &Expr) -> (Mask, bool) {
+    let mut w = Mask::ZERO;
     let mut bad = false;
     for c in pred_children(p) {
         let ev = sub_eval(fx, tb, mode, c);
@@ -570,15 +630,15 @@ fn descendants_wrong(fx: &mut Fx, tb: usize, mode: usize, p: &Expr) -> (u128, bo
     (w, bad)
 }
 
-fn ids(mask: u128) -> Vec<usize> {
-    (0..NROWS).filter(|i| mask & (1 << i) != 0).map(|i| i + 1).collect()
+fn ids(mask: Mask) -> Vec<usize> {
+    (0..NROWS).filter(|i| mask.has(*i)).map(|i| i + 1).collect()
 }
-fn class_of(t: u128, f: u128, n: u128, i: usize) -> char {
-    if t & (1 << i) != 0 {
+fn class_of(t: Mask, f: Mask, n: Mask, i: usize) -> char {
+    if t.has(i) {
         'T'
-    } else if f & (1 << i) != 0 {
+    } else if f.has(i) {
         'F'
-    } else if n & (1 << i) != 0 {
+    } else if n.has(i) {
         'N'
     } else {
         '?'
@@ -592,10 +652,10 @@ fn check_pred(fx: &mut Fx, rep: &mut Reporter, pass: &str, tb: usize, mode: usiz
     rep.count("rows_compared", compared);
     rep.count("model_error_rows_skipped", ev.skipped.count_ones() as u64);
     rep.count(if mode == 0 { "where_queries" } else { "select_list_queries" }, 1);
-    let nontrivial = [ev.exp_t, ev.exp_f, ev.exp_n].iter().filter(|m| **m != 0).count() >= 2;
+    let nontrivial = [ev.exp_t, ev.exp_f, ev.exp_n].iter().filter(|m| !m.is_zero()).count() >= 2;
     rep.case(vcore::util::hash_of(&(tb, mode, p)), nontrivial);
     let m = MODES[mode];
-    if ev.wrong == 0 {
+    if ev.wrong.is_zero() {
         rep.outcome(&format!("{m}:agrees"));
         return false;
     }
@@ -612,21 +672,21 @@ fn check_pred(fx: &mut Fx, rep: &mut Reporter, pass: &str, tb: usize, mode: usiz
         return true;
     }
     let blamed = ev.wrong & !dw;
-    if blamed == 0 {
+    if blamed.is_zero() {
         rep.pruned(1);
         rep.count("blamed_on_subexpression", 1);
         rep.outcome(&format!("{m}:differs-in-subexpression-only"));
         return false;
     }
     let (ot, of, on) = match &ev.obs {
-        Obs::Where { t } => (*t, ALL & !*t, 0),
+        Obs::Where { t } => (*t, ALL & !*t, Mask::ZERO),
         Obs::Sel { t, f, n } => (*t, *f, *n),
         Obs::Bad { .. } => unreachable!(),
     };
-    let mut classes: BTreeMap<(char, char), u128> = BTreeMap::new();
+    let mut classes: BTreeMap<(char, char), Mask> = BTreeMap::new();
     for i in 0..NROWS {
-        if blamed & (1 << i) != 0 {
-            *classes.entry((class_of(ev.exp_t, ev.exp_f, ev.exp_n, i), class_of(ot, of, on, i))).or_insert(0) |= 1 << i;
+        if blamed.has(i) {
+            classes.entry((class_of(ev.exp_t, ev.exp_f, ev.exp_n, i), class_of(ot, of, on, i))).or_insert(Mask::ZERO).set(i);
         }
     }
     for ((e, o), mask) in classes {
@@ -681,6 +741,9 @@ impl<'a> Run<'a> {
         }
         rep.count("predicates", 1);
         rep.count(&format!("pass.{}.predicates", job.name), 1);
+        if job.name.starts_with("A1") {
+            count_int_vs_float(fx, rep, p);
+        }
         let mut ops = BTreeMap::new();
         count_ops(p, &mut ops);
         for (k, n) in ops {
@@ -772,6 +835,53 @@ fn plan_class(plan: &Option<String>) -> &'static str {
     }
 }
 
+/// Constants offered to the refmodel atom enumerator: those of `Consts::c14()` plus -1 and the float
+/// constants -0.5, -1.5, 1.5 (int-vs-float comparisons with a negative / positive fractional float whose
+/// truncation equals the integer).  Order matters only for IN/BETWEEN, which take the first (0) and last (1.0).
+fn consts() -> Consts {
+    let mut k = Consts::c14();
+    k.ints = vec![0, -1, 1, 2];
+    k.floats = vec![0.5, -0.5, -1.5, 1.5, 1.0];
+    k
+}
+
+const IVF_ORDERS: [&str; 3] = ["intcol-floatconst", "floatcol-intconst", "intcol-floatcol"];
+const IVF_CLASSES: [&str; 6] = ["negfrac-trunc-eq-int", "negfrac-trunc-ne-int", "posfrac-trunc-eq-int", "posfrac-trunc-ne-int", "integral-eq-int", "integral-ne-int"];
+/// vacuity evidence: for a comparison atom between an integer and a float operand, count per
+/// (operand order, value class, operator) the rows on which that class occurs
+fn count_int_vs_float(fx: &Fx, rep: &mut Reporter, p: &Expr) {
+    let Expr::Cmp(op, x, y) = p else { return };
+    let order = match (&**x, &**y) {
+        (Expr::Col(c), Expr::Lit(V::Float(_))) if c.name == "a" => IVF_ORDERS[0],
+        (Expr::Col(c), Expr::Lit(V::Int(_))) if c.name == "b" => IVF_ORDERS[1],
+        (Expr::Col(c), Expr::Col(d)) if c.name == "a" && d.name == "b" => IVF_ORDERS[2],
+        (Expr::Lit(V::Int(_)), Expr::Col(c)) if c.name == "b" => "intconst-floatcol",
+        _ => return,
+    };
+    let mut seen: BTreeMap<&'static str, u64> = BTreeMap::new();
+    for r in &fx.rows {
+        let (Ok(xv), Ok(yv)) = (x.eval(r, &fx.schema), y.eval(r, &fx.schema)) else { continue };
+        let (i, f) = match (&xv, &yv) {
+            (V::Int(i), V::Float(f)) | (V::Float(f), V::Int(i)) => (*i, *f),
+            _ => continue,
+        };
+        let trunc_eq = f.trunc() == i as f64;
+        let class = if f.fract() == 0.0 {
+            if trunc_eq { IVF_CLASSES[4] } else { IVF_CLASSES[5] }
+        } else if f < 0.0 {
+            if trunc_eq { IVF_CLASSES[0] } else { IVF_CLASSES[1] }
+        } else if trunc_eq {
+            IVF_CLASSES[2]
+        } else {
+            IVF_CLASSES[3]
+        };
+        *seen.entry(class).or_insert(0) += 1;
+    }
+    for (class, n) in seen {
+        rep.count(&format!("intfloat.{order}.{class}.{}", op_name(*op)), n);
+    }
+}
+
 /// atoms on the id column (primary key in `t`, plain column in `n`): index-eligible shapes
 fn id_atoms() -> Vec<Expr> {
     let id = || col("id");
@@ -821,7 +931,7 @@ impl Check for C14 {
         let mut s = Spec::new(
             "C14",
             "exploration",
-            "a case is one (predicate, table, observation form): table = full cross product a{NULL,-1,0,1,2} x b{NULL,-1.0,0.5,1.0,2.0} x c{NULL,'','a','ab','b'} (125 rows) with id PRIMARY KEY (t), plain id (n), or PRIMARY KEY plus secondary indexes on a and c (x); form = `SELECT id FROM tb WHERE p` (returned id set vs rows where the model says TRUE) or `SELECT id, p FROM tb WHERE 1=1` (TRUE/FALSE/NULL per row). Predicates: every atom of refmodel atoms(schema, Consts::c14()) (comparisons col/const/NULL/col-col x 6 operators, IS [NOT] NULL, [NOT] IN with/without NULL, [NOT] BETWEEN with/without NULL bound, [NOT] LIKE) and its NOT, IS [NOT] NULL over every atom, 21 id-column atoms (index-eligible) alone, negated and AND/OR-combined with the core in both operand orders, all NOT/AND/OR trees to the stated depth over the 40-atom core (quick: depth<=1 + one outer NOT; thorough: depth<=1 over all atoms, depth<=2 over the core, time-capped), and the B passes = AND/OR trees over the atoms without the constructs of the recorded findings (quick: depth<=1 over all such atoms, depth<=2 over a 8-atom mini core on t and x; thorough: depth<=2 over the 25-atom safe core on t and x). Distinct = distinct (predicate, table, form); non-trivial = the model's value is not the same for all 125 rows. Blame is per row: a row counts against p only if every proper boolean sub-expression of p agrees with the model on that row.",
+            "a case is one (predicate, table, observation form): table = full cross product a{NULL,-1,0,1,2} x b{NULL,-1.5,-1.0,-0.5,0.5,1.0,2.0} x c{NULL,'','a','ab','b'} (175 rows) with id PRIMARY KEY (t), plain id (n), or PRIMARY KEY plus secondary indexes on a and c (x); form = `SELECT id FROM tb WHERE p` (returned id set vs rows where the model says TRUE) or `SELECT id, p FROM tb WHERE 1=1` (TRUE/FALSE/NULL per row). Predicates: every atom of refmodel atoms(schema, consts: ints 0,-1,1,2; floats 0.5,-0.5,-1.5,1.5,1.0) (comparisons col/const/NULL/col-col x 6 operators, IS [NOT] NULL, [NOT] IN with/without NULL, [NOT] BETWEEN with/without NULL bound, [NOT] LIKE) and its NOT, IS [NOT] NULL over every atom, 21 id-column atoms (index-eligible) alone, negated and AND/OR-combined with the core in both operand orders, all NOT/AND/OR trees to the stated depth over the 40-atom core (quick: depth<=1 + one outer NOT; thorough: depth<=1 over all atoms, depth<=2 over the core, time-capped), and the B passes = AND/OR trees over the atoms without the constructs of the recorded findings (quick: depth<=1 over all such atoms on t and x, depth<=2 over a 8-atom mini core on t and x; thorough: depth<=2 over the 25-atom safe core on t and x). Distinct = distinct (predicate, table, form); non-trivial = the model's value is not the same for all 175 rows. Blame is per row: a row counts against p only if every proper boolean sub-expression of p agrees with the model on that row.",
         );
         s.assumptions = &[
             "oracle = refmodel::sql::expr::Expr::eval_truth (Kleene logic, cross-checked against SQLite); rows on which the model raises Overflow/DivZero/Type are skipped and counted",
@@ -840,12 +950,12 @@ impl Check for C14 {
             Err(e) => {
                 if ctx.worker == 0 {
                     rep.case(0, false);
-                    rep.violation("C14", "fixture", "C14/fixture/load", || json!({"fixture": true}), "the 125-row table loads and reads back", &e);
+                    rep.violation("C14", "fixture", "C14/fixture/load", || json!({"fixture": true}), "the 175-row table loads and reads back", &e);
                 }
                 return;
             }
         };
-        let k = Consts::c14();
+        let k = consts();
         let all = atoms(&abc_schema(), &k);
         let core = core_atoms(&abc_schema(), &k);
         let safe_all: Vec<Expr> = all.iter().filter(|e| !known_broken(e, 1)).cloned().collect();
@@ -853,6 +963,13 @@ impl Check for C14 {
         rep.bound("atoms", json!({"all": all.len(), "core": core.len(), "all_without_known_broken": safe_all.len(), "core_without_known_broken": safe_core.len(), "mini_core": mini_core().len(), "id_atoms": id_atoms().len()}));
         for c in ["predicates", "rows_compared", "where_queries", "select_list_queries", "op.cmp", "op.AND", "op.OR", "op.NOT", "op.in", "op.notin", "op.between", "op.notbetween", "op.like", "op.notlike", "op.isnull", "op.isnotnull", "plan.t.SecondaryIndexScan", "plan.x.SecondaryIndexScan", "plan.t.TableScan", "plan.n.TableScan"] {
             rep.expect_nonzero(c);
+        }
+        for order in IVF_ORDERS {
+            for class in IVF_CLASSES {
+                for op in CmpOp::ALL {
+                    rep.expect_nonzero(&format!("intfloat.{order}.{class}.{}", op_name(op)));
+                }
+            }
         }
         rep.count("model_error_rows_skipped", 0);
         let tabs3 = [0usize, 1, 2]; // PK table, plain table, table with secondary indexes on a and c
@@ -888,7 +1005,7 @@ impl Check for C14 {
             run.trees(&mut fx, rep, &Job { name: "A4-all-depth1+NOT", tables: &tabs3, modes: &forms, explain: false, skip_known_broken: false }, &all, 1, true, true);
         }
         // ---- B: without the constructs of the recorded findings ------------------------------------
-        run.trees(&mut fx, rep, &Job { name: "B1-safe-all-depth1", tables: &tabs3, modes: &forms, explain: false, skip_known_broken: true }, &safe_all, 1, false, false);
+        run.trees(&mut fx, rep, &Job { name: "B1-safe-all-depth1", tables: if quick { &pkx } else { &tabs3 }, modes: &forms, explain: false, skip_known_broken: true }, &safe_all, 1, false, false);
         if quick {
             run.trees(&mut fx, rep, &Job { name: "B2-mini-depth2", tables: &pkx, modes: &forms, explain: false, skip_known_broken: true }, &mini_core(), 2, false, false);
         } else {
@@ -904,7 +1021,7 @@ impl Check for C14 {
             Ok(f) => f,
             Err(e) => {
                 rep.case(0, false);
-                rep.violation("C14", "fixture", "C14/fixture/load", || json!({"fixture": true}), "the 125-row table loads and reads back", &e);
+                rep.violation("C14", "fixture", "C14/fixture/load", || json!({"fixture": true}), "the 175-row table loads and reads back", &e);
                 return;
             }
         };
